@@ -14,9 +14,12 @@ import (
 	"math/big"
 	"os"
 	"strings"
+	"sync"
 	"time"
 
 	"github.com/markkurossi/mpc/circuit"
+	"github.com/markkurossi/mpc/compiler"
+	"github.com/markkurossi/mpc/compiler/utils"
 	"github.com/markkurossi/mpc/ot"
 
 	"verifharness/hxlib"
@@ -32,6 +35,10 @@ func main() {
 		os.Exit(run(os.Args[2:], false))
 	case "real":
 		os.Exit(run(os.Args[2:], true))
+	case "compiled":
+		os.Exit(compiled(os.Args[2:]))
+	case "shared":
+		os.Exit(shared(os.Args[2:]))
 	default:
 		fmt.Fprintf(os.Stderr, "unknown mode %q\n", os.Args[1])
 		os.Exit(2)
@@ -224,4 +231,214 @@ func (t *tapeThen) Read(p []byte) (int, error) {
 		t.rest.Read(p[n:])
 	}
 	return len(p), nil
+}
+
+// ---------------------------------------------------------------- compiled
+
+var programs = []string{
+	"package main\nfunc main(a, b uint8) uint8 { return a + b }\n",
+	"package main\nfunc main(a, b int16) (int16, bool) { return a - b, a < b }\n",
+	"package main\ntype G struct { x uint4\n y int5 }\nfunc main(a G, b [2]uint3) (uint4, int5, uint3) { return a.x + 1, a.y - 2, b[0] ^ b[1] }\n",
+	"package main\nfunc main(a [3]uint4, b int70) ([3]uint4, int70, bool) { return a, b + 1, a[0] > a[1] }\n",
+	"package main\nfunc main(a uint1, b uint1) (uint1, uint1, uint1) { return a & b, a | b, a ^ b }\n",
+	"package main\nfunc main(a uint13, b uint7) (uint13, uint7) { if a > uint13(b) { return a * 3, b }\n return a, b + 1 }\n",
+	"package main\nfunc main(a int33, b int33) (int33, int33) { return a * b, a / 7 }\n",
+	"package main\nfunc main(a, b uint64) (uint64, uint64, bool) { return a + b, a &^ b, a == b }\n",
+	"package main\nfunc main(a uint3, b uint100) uint100 { return b << 3 | uint100(a) }\n",
+}
+
+// computeInputs splits the two parties' bit vectors into one value per
+// flattened circuit argument, as Circuit.Compute expects.
+func computeInputs(c *circuit.Circuit, bits []bool) []*big.Int {
+	var res []*big.Int
+	ofs := 0
+	for _, io := range c.Inputs {
+		if len(io.Compound) > 0 {
+			for _, m := range io.Compound {
+				res = append(res, bitsToBig(bits[ofs:ofs+int(m.Type.Bits)]))
+				ofs += int(m.Type.Bits)
+			}
+		} else {
+			res = append(res, bitsToBig(bits[ofs:ofs+int(io.Type.Bits)]))
+			ofs += int(io.Type.Bits)
+		}
+	}
+	return res
+}
+
+func compiled(args []string) int {
+	cf, o := hxlib.ParseCommon("c02", args, nil)
+	defer o.Close()
+	rng := hxlib.NewRng(cf.Seed ^ 0xc0)
+	var circs []*circuit.Circuit
+	for i, src := range programs {
+		c, _, err := compiler.New(utils.NewParams()).Compile(src, nil)
+		if err != nil || len(c.Inputs) != 2 {
+			o.Fail("c02-compile-error", map[string]any{"program": i, "src": src, "err": fmt.Sprint(err)})
+			return 0
+		}
+		circs = append(circs, c)
+	}
+	ots := []string{"co", "cot", "cotm"}
+	for i := 0; i < cf.N; i++ {
+		r := rng.Fork()
+		if cf.Only >= 0 && i != cf.Only {
+			continue
+		}
+		pi := i % len(circs)
+		c := circs[pi]
+		n0 := int(c.Inputs[0].Type.Bits)
+		n1 := int(c.Inputs[1].Type.Bits)
+		x := make([]bool, n0)
+		y := make([]bool, n1)
+		fill := r.Intn(4)
+		for j := range x {
+			x[j] = fill == 0 && r.Bool() || fill == 1
+		}
+		for j := range y {
+			y[j] = fill == 0 && r.Bool() || fill == 1 || fill == 3 && j == n1-1
+		}
+		if fill == 3 && n0 > 0 {
+			x[n0-1] = true
+		}
+		var widths []int
+		for _, io := range c.Outputs {
+			widths = append(widths, int(io.Type.Bits))
+		}
+		tape := r.Bytes(32 + 16*(1+n0+n1))
+		otName := ots[i%len(ots)]
+		op := fmt.Sprintf("c02 %s %s %s %d %d %s %s %s", otName, hxlib.Hex(tape), hxlib.CircLine(c), n0, n1,
+			intsString(widths), hxlib.BitsString(x), hxlib.BitsString(y))
+		d := hxlib.NewDuplex(r.Fork())
+		gr := r.Fork()
+		res := hxlib.RunSession(c, bitsToBig(x), bitsToBig(y), mkOT(otName, gr), mkOT(otName, r.Fork()),
+			&tapeThen{tape: tape, rest: gr}, d, 60*time.Second)
+		d.Close()
+		var sb strings.Builder
+		switch {
+		case res.Stalled:
+			sb.WriteString("stalled")
+			o.Fail("c02-stalled", map[string]any{"case": i, "program": pi, "ot": otName})
+		case res.GPanic != nil || res.EPanic != nil:
+			sb.WriteString("panic")
+			o.Fail("c02-panic", map[string]any{"case": i, "program": pi, "g": fmt.Sprint(res.GPanic), "e": fmt.Sprint(res.EPanic)})
+		case res.GErr != nil || res.EErr != nil:
+			sb.WriteString("error")
+			o.Fail("c02-error", map[string]any{"case": i, "program": pi, "g": fmt.Sprint(res.GErr), "e": fmt.Sprint(res.EErr)})
+		default:
+			fmt.Fprintf(&sb, "g=%s;e=%s", hxlib.BigsString(res.GRes), hxlib.BigsString(res.ERes))
+			want, err := c.Compute(computeInputs(c, append(append([]bool(nil), x...), y...)))
+			if err != nil {
+				o.Fail("c02-compute-error", map[string]any{"case": i, "program": pi, "err": err.Error()})
+			} else if hxlib.BigsString(want) != hxlib.BigsString(res.GRes) || hxlib.BigsString(want) != hxlib.BigsString(res.ERes) {
+				o.Fail("c02-wrong-result", map[string]any{"case": i, "program": pi, "src": programs[pi], "ot": otName,
+					"x": hxlib.BitsString(x), "y": hxlib.BitsString(y), "want": hxlib.BigsString(want),
+					"garbler": hxlib.BigsString(res.GRes), "evaluator": hxlib.BigsString(res.ERes)})
+			}
+		}
+		o.Op(op, sb.String())
+		o.Count("sessions_compiled")
+		o.Count(fmt.Sprintf("program_%d", pi))
+		if i < 2 {
+			o.Sample(map[string]any{"case": i, "src": programs[pi], "ot": otName, "gates": c.NumGates})
+		}
+	}
+	return 0
+}
+
+// ---------------------------------------------------------------- shared
+
+// shared runs many OVERLAPPING sessions on one shared *circuit.Circuit value
+// (a server garbling the same compiled circuit for several peers): each
+// session has its own connection, inputs and random tape and must behave
+// exactly like a session run alone (transcripts and results compared with the
+// model, results with Circuit.Compute).
+func shared(args []string) int {
+	cf, o := hxlib.ParseCommon("c02", args, nil)
+	defer o.Close()
+	rng := hxlib.NewRng(cf.Seed ^ 0x5a)
+	mixes := []string{"uniform", "and", "orinv", "xnor"}
+	rounds := cf.N
+	const par = 24
+	for round := 0; round < rounds; round++ {
+		r := rng.Fork()
+		c := hxlib.GenCircuit(r, hxlib.GenOpts{MaxGates: 60, MaxIn: 6, Mix: mixes[round%len(mixes)]})
+		widths := splitOutputs(r, c)
+		n0 := int(c.Inputs[0].Type.Bits)
+		n1 := int(c.Inputs[1].Type.Bits)
+		type sess struct {
+			op   string
+			x, y []bool
+			tape []byte
+			d    *hxlib.Duplex
+			res  *hxlib.SessionResult
+		}
+		ss := make([]*sess, par)
+		for k := range ss {
+			s := &sess{x: make([]bool, n0), y: make([]bool, n1)}
+			for j := range s.x {
+				s.x[j] = r.Bool()
+			}
+			for j := range s.y {
+				s.y[j] = r.Bool()
+			}
+			s.tape = r.Bytes(32 + 16*(1+n0+n1))
+			s.op = fmt.Sprintf("c02 ideal %s %s %d %d %s %s %s", hxlib.Hex(s.tape), hxlib.CircLine(c), n0, n1,
+				intsString(widths), hxlib.BitsString(s.x), hxlib.BitsString(s.y))
+			s.d = hxlib.NewDuplex(r.Fork())
+			ss[k] = s
+		}
+		var wg sync.WaitGroup
+		start := make(chan struct{})
+		for _, s := range ss {
+			wg.Add(1)
+			go func(s *sess) {
+				defer wg.Done()
+				<-start
+				ideal := hxlib.NewIdealOT()
+				s.res = hxlib.RunSession(c, bitsToBig(s.x), bitsToBig(s.y), ideal, ideal, &hxlib.Tape{Data: s.tape},
+					s.d, 60*time.Second)
+				s.d.Close()
+			}(s)
+		}
+		close(start)
+		wg.Wait()
+		want := func(s *sess) string {
+			w, err := c.Compute([]*big.Int{bitsToBig(s.x), bitsToBig(s.y)})
+			if err != nil {
+				return "compute-error"
+			}
+			return hxlib.BigsString(w)
+		}
+		for k, s := range ss {
+			res := s.res
+			var sb strings.Builder
+			switch {
+			case res.Stalled:
+				sb.WriteString("stalled")
+				o.Fail("c02-shared-stalled", map[string]any{"round": round, "session": k, "op": s.op})
+			case res.GPanic != nil || res.EPanic != nil:
+				sb.WriteString("panic")
+				o.Fail("c02-shared-panic", map[string]any{"round": round, "session": k, "g": fmt.Sprint(res.GPanic), "e": fmt.Sprint(res.EPanic)})
+			case res.GErr != nil || res.EErr != nil:
+				sb.WriteString("error")
+				o.Fail("c02-shared-error", map[string]any{"round": round, "session": k, "op": s.op,
+					"g": fmt.Sprint(res.GErr), "e": fmt.Sprint(res.EErr)})
+			default:
+				fmt.Fprintf(&sb, "ge=%s;eg=%s;g=%s;e=%s", hxlib.Hex(s.d.AB.Rec), hxlib.Hex(s.d.BA.Rec),
+					hxlib.BigsString(res.GRes), hxlib.BigsString(res.ERes))
+				if w := want(s); w != hxlib.BigsString(res.GRes) || w != hxlib.BigsString(res.ERes) {
+					o.Fail("c02-shared-wrong-result", map[string]any{"round": round, "session": k, "op": s.op, "want": w,
+						"garbler": hxlib.BigsString(res.GRes), "evaluator": hxlib.BigsString(res.ERes)})
+				}
+			}
+			o.Op(s.op, sb.String())
+			o.Count("sessions_shared")
+		}
+		o.Count("shared_rounds")
+		if round < 1 {
+			o.Sample(map[string]any{"round": round, "concurrent_sessions": par, "circuit": hxlib.CircLine(c)})
+		}
+	}
+	return 0
 }
